@@ -60,4 +60,11 @@ PROPS = {
         "replay": "heap",
         "level": "proof",
     },
+    "C06": {
+        "title": "Clause selection returns exactly the clauses whose heads unify",
+        "v_units": ["indexkey"], "s_checks": ["switch_routes"],
+        "k_groups": [],
+        "replay": "index",
+        "level": "proof",
+    },
 }
